@@ -166,9 +166,12 @@ def _run(scn, w, res):
 
     for j in scn["joiners"]:
         lst = []
-        lst.append((None, net.post(j["id"], "pause", mk(j, {"op": "pause", "ms": j["offset_ms"]}))))
+        lst.append((None, net.hold(j["id"], j["offset_ms"] * MS)))
         for op in j["ops"]:
-            lst.append((op, net.post(j["id"], op["op"], mk(j, op))))
+            if op["op"] == "pause":
+                lst.append((None, net.hold(j["id"], op["ms"] * MS)))
+            else:
+                lst.append((op, net.post(j["id"], op["op"], mk(j, op))))
         cmds[j["id"]] = lst
     # wait for everything
     for nid, lst in cmds.items():
@@ -191,14 +194,14 @@ def _run(scn, w, res):
                 return False
         return True
 
-    def answer_arrived(nc_, c_):
+    def answer_arrived(nc_, c_, my_addr=None):
         """sniffer: a lookup reply addressed to this node was stored by its radio early enough to be read before the call returned"""
         name = "n%s" % nc_.key
         margin = 2 * nc_.mcu.poll_ns + 5 * MS
         for t in w.air.trace:
             if t["ack"] or len(t["data"]) < 8 or t["data"][6] not in (196, 198):
                 continue
-            if c_.t0 <= t["t1"] <= c_.t1 - margin and (name, "stored") in [tuple(x) for x in t["rx"]] and (t["data"][2] | (t["data"][3] << 8)) == (t["data"][0] | (t["data"][1] << 8)):
+            if c_.t0 <= t["t1"] <= c_.t1 - margin and (name, "stored") in [tuple(x) for x in t["rx"]] and (t["data"][2] | (t["data"][3] << 8)) == (t["data"][0] | (t["data"][1] << 8)) == my_addr:
                 return True
         return False
 
@@ -220,6 +223,7 @@ def _run(scn, w, res):
     for nid, lst in cmds.items():
         nc = net.nodes[nid]
         connected = False
+        cur_addr = None
         for op, c in lst:
             if op is None:
                 continue
@@ -238,6 +242,7 @@ def _run(scn, w, res):
                 if dur > op["timeout"] + 1.0:
                     res.add("safe" if lossy else "join", {"kind": "timeout_exceeded"}, "renew_address(%.1f) on id %d took %.2f s" % (op["timeout"], nid, dur))
                 connected = addr is not None
+                cur_addr = addr
                 if lossy:
                     continue
                 if addr is None:
@@ -272,7 +277,7 @@ def _run(scn, w, res):
                     ok = {tab.get(q, -2) for tab in tables(c.t0, c.t1)}
                     if r not in ok and r != -1:
                         res.add("lookup", {"kind": "wrong_address", "negative": r < 0, "want_negative": min(ok) < 0}, "lookup_address(%d) = %r; master's mapping during the call: %r" % (q, r, sorted(ok)))
-                    elif r == -1 and answer_arrived(nc, c):
+                    elif r == -1 and answer_arrived(nc, c, cur_addr):
                         res.add("lookup", {"kind": "answer_ignored"}, "lookup_address(%d) = -1 (no answer) although the master's reply reached the node's radio in time" % q)
                     elif r == -1 and isolated(nid, c):
                         res.add("lookup", {"kind": "no_answer"}, "lookup_address(%d) = -1 (no answer) on a loss-free medium with no other call in progress anywhere" % q)
@@ -298,7 +303,7 @@ def _run(scn, w, res):
                         ok.add(-2)
                     if got not in ok and got != -1:
                         res.add("lookup", {"kind": "wrong_id", "negative": got < 0, "want_negative": min(ok) < 0}, "lookup_node_id(%o) = %r; master's mapping during the call: %r" % (a, got, sorted(ok)))
-                    elif got == -1 and answer_arrived(nc, c):
+                    elif got == -1 and answer_arrived(nc, c, cur_addr):
                         res.add("lookup", {"kind": "answer_ignored"}, "lookup_node_id(%o) = -1 (no answer) although the master's reply reached the node's radio in time" % a)
                     elif got == -1 and isolated(nid, c):
                         res.add("lookup", {"kind": "no_answer"}, "lookup_node_id(%o) = -1 (no answer) on a loss-free medium with no other call in progress anywhere" % a)
